@@ -42,6 +42,7 @@ type Op struct {
 	Path    string `json:"path"`
 	Path2   string `json:"path2,omitempty"`
 	Real    string `json:"real,omitempty"`
+	Real2   string `json:"real2,omitempty"`
 	Write   bool   `json:"write"`
 	Flags   int    `json:"flags,omitempty"`
 	Escaped bool   `json:"escaped,omitempty"`
